@@ -355,3 +355,32 @@ Fixpoint run (s : state) (es : list event) : option state :=
 (* the queue the code keeps for one (key, role) *)
 Definition queue (s : state) (k : key) (creator : bool) : list req :=
   filter (fun q => key_eqb (q_key q) k && Bool.eqb (q_creator q) creator) (reqs s).
+
+(* ------------------------------------------------------------------ sockets and purposes *)
+(* create_epr / recv_epr name the LOCAL EPR socket; the request is queued under the purpose id
+   the network stack assigns to that socket (_get_purpose_id), which is also what responses
+   carry.  The assignment is the stack's business: identity, cross-connected sockets
+   (purpose = the remote side's socket id), a constant offset, ... *)
+Inductive pmap := PId | PSwap | POff (d : Z).
+
+Definition purpose_of (pm : pmap) (remote sock : Z) : Z :=
+  match pm with
+  | PId => sock
+  | PSwap => 1 - sock
+  | POff d => sock + d
+  end.
+
+(* events as the instructions state them: (remote node, local socket) *)
+Inductive ievent :=
+| ICreate (remote sock : Z) (tpk : bool) (vs : list Z) (n : nat) (qarr args res : Z) (ws : list wspec)
+| IRecv (remote sock : Z) (vs : option (list Z)) (n : nat) (qarr res : Z) (ws : list wspec)
+| IOther (e : event).
+
+Definition lower (pm : pmap) (ie : ievent) : event :=
+  match ie with
+  | ICreate remote sock tpk vs n qarr args res ws =>
+      Create (remote, purpose_of pm remote sock) tpk vs n qarr args res ws
+  | IRecv remote sock vs n qarr res ws =>
+      Recv (remote, purpose_of pm remote sock) vs n qarr res ws
+  | IOther e => e
+  end.
